@@ -56,7 +56,9 @@ def permute_state(u, perm, vector):
 
 
 def check_permutations(run, ex, jnp, rng, tier):
-    for c in zoo.cases(tier, orders=(2,) if tier == "quick" else (1, 2, 3, 4), dims=(2, 3)):
+    for c in zoo.cases(tier, orders=(2, 4) if tier == "quick" else (1, 2, 3, 4), dims=(2, 3)):
+        if tier == "quick" and c["order"] == 4 and c["name"] not in zoo.ODD_ORDER_LINEAR:
+            continue          # quick tier: order 4 only where the linear symbol is complex (its coefficients carry an imaginary part)
         name, D, N = c["name"], c["D"], c["N"]
         if name in zoo.KOLMOGOROV or c["kw"].get("injection_scale", 0.0) != 0.0:
             continue
@@ -87,7 +89,9 @@ def check_permutations(run, ex, jnp, rng, tier):
 
 def check_embedding(run, ex, jnp, rng, tier):
     cls = registry.stepper_classes()
-    for c in zoo.cases(tier, orders=(2,) if tier == "quick" else (1, 2, 4), dims=(2, 3)):
+    for c in zoo.cases(tier, orders=(2, 4) if tier == "quick" else (1, 2, 4), dims=(2, 3)):
+        if tier == "quick" and c["order"] == 4 and c["name"] not in zoo.ODD_ORDER_LINEAR:
+            continue
         name, D, N = c["name"], c["D"], c["N"]
         if 1 not in registry.dims_of(name) or name.startswith("Difficulty"):
             continue
